@@ -44,6 +44,9 @@ func c02RecorderDoer(e *c02Env) c02Doer {
 		}
 		req := httptest.NewRequest(run.route.Method, run.route.Path, body)
 		req.Header.Set(c02RunHeader, run.id)
+		for _, h := range run.reqHdr {
+			req.Header.Set(h[0], h[1])
+		}
 		if opt.upgrade != "" {
 			req.Header.Set("Upgrade", opt.upgrade)
 		}
